@@ -474,13 +474,31 @@ func TestVerifC10(t *testing.T) {
 		st.bulk("c10setup", txntest.Txn{Type: protocol.PaymentTx, Sender: s.u.keyed[0], Receiver: st.app.Address(), Amount: 500_000_000})
 		var cursorsKv string
 		var kvRound basics.Round
+		var followUp, pendingFollowUp []basics.AssetIndex
+		touched := map[basics.AssetIndex]basics.Round{} // asset -> round in which its creator touched it after the holder left
 		for b := 0; b < rounds; b++ {
 			// a block of listing-relevant operations
 			var txns []txntest.Txn
 			nops := r.Range(0, 14)
 			assets := s.g.liveAssets()
+			for _, a := range pendingFollowUp {
+				if cr, ok := s.m.creator(s.m.latest, basics.CreatableIndex(a), basics.AssetCreatable); ok {
+					other := st.creators[0]
+					if other == cr {
+						other = st.creators[1]
+					}
+					// opt the other creator in (no-op if already) and move one unit: changes the creator's holding record
+					txns = append(txns, txntest.Txn{Type: protocol.AssetTransferTx, Sender: other, XferAsset: a, AssetReceiver: other})
+					txns = append(txns, txntest.Txn{Type: protocol.AssetTransferTx, Sender: cr, XferAsset: a, AssetReceiver: other, AssetAmount: 1})
+				}
+			}
+			for _, a := range pendingFollowUp {
+				touched[a] = s.m.latest + 1
+			}
+			pendingFollowUp = followUp
+			followUp = nil
 			for i := 0; i < nops; i++ {
-				switch r.Intn(9) {
+				switch r.Intn(10) {
 				case 0, 1: // create an asset
 					txns = append(txns, txntest.Txn{Type: protocol.AssetConfigTx, Sender: st.creators[r.Intn(2)], AssetParams: basics.AssetParams{Total: 1000, Manager: st.creators[0], UnitName: "c10"}})
 				case 2, 3: // holder opts in
@@ -493,6 +511,19 @@ func TestVerifC10(t *testing.T) {
 						a := hs[r.Intn(len(hs))]
 						cr, _ := s.m.creator(s.m.latest, basics.CreatableIndex(a), basics.AssetCreatable)
 						txns = append(txns, txntest.Txn{Type: protocol.AssetTransferTx, Sender: st.holder, XferAsset: a, AssetReceiver: cr, AssetCloseTo: cr})
+						if r.Bool() {
+							followUp = append(followUp, a) // the creator touches this asset again in a LATER (still unflushed) round
+						}
+					}
+				case 7: // the creator moves units (to the holder if opted in, else to the other creator or itself):
+					// this touches the CREATOR's holding/params record of an asset the holder may just have left
+					if len(assets) > 0 {
+						a := assets[r.Intn(len(assets))]
+						rcv := st.holder
+						if _, ok := s.m.assetHold[hlRes{st.holder, basics.CreatableIndex(a.idx)}].at(s.m.latest); !ok || r.Chance(1, 3) {
+							rcv = a.creator
+						}
+						txns = append(txns, txntest.Txn{Type: protocol.AssetTransferTx, Sender: a.creator, XferAsset: a.idx, AssetReceiver: rcv, AssetAmount: uint64(r.Intn(3))})
 					}
 				case 5: // destroy an asset (creator holds everything unless the holder received some)
 					if len(assets) > 0 {
@@ -558,7 +589,18 @@ func TestVerifC10(t *testing.T) {
 			}
 
 			// (1) whole iterations at quiescent points
-			if b%3 == 2 {
+			inWindow := false
+			for a, rb := range touched {
+				_, holds := s.m.assetHold[hlRes{st.holder, basics.CreatableIndex(a)}].at(s.m.latest)
+				_, heldOnDisk := s.m.assetHold[hlRes{st.holder, basics.CreatableIndex(a)}].at(s.l.LatestTrackerCommitted())
+				if !holds && heldOnDisk && rb > s.l.LatestTrackerCommitted() && rb <= s.m.latest {
+					inWindow = true
+				}
+			}
+			if b%3 == 2 || inWindow {
+				if inWindow {
+					c.Count("c10.listings_with_unflushed_optout_and_later_creator_touch", 1)
+				}
 				s.waitBlockQueue()
 				for _, lim := range []uint64{1, 2, 3, 7, 1000} {
 					st.iterateAssets(st.holder, lim)
@@ -586,4 +628,5 @@ func TestVerifC10(t *testing.T) {
 	c.Require("c10.listings_with_memory_only_deletions", 10)
 	c.Require("c10.listings_with_memory_only_additions", 10)
 	c.Require("c10.pages_across_blocks", 30)
+	c.Require("c10.listings_with_unflushed_optout_and_later_creator_touch", 3)
 }
